@@ -118,6 +118,9 @@ class ContractDB:
         self.spec_builtins = dict(SPEC_BUILTINS)
         self.assumed_collaborators = set()
         self.const_overrides = {}
+        # abstract kinds whose instances have no __bool__/__len__ (always truthy)
+        self.always_truthy = {"type", "XmlMeta", "XmlVar", "XmlNode", "Builder", "Converter", "ParserConfig", "XmlContext",
+                              "ClassType", "Logger", "Match"}
         # the library logger: calls are recorded on the ghost trace, no other effect
         self.const_overrides[("xsdata.logger", "logger")] = Opaque("Logger", z3.Const("xsdata_logger", z3sort(("u", "Logger"))))
         for m in ("warning", "info", "debug", "error"):
@@ -391,6 +394,15 @@ def _sb_strip_blank(ex, st, args, kwargs):
     yield st, SV("bool", z3.Implies(z3.InRe(t, z3.Star(bm.RE_WS)), bm.PY_STRIP(t) == z3.StringVal("")))
 
 
+def _sb_some(ex, st, args, kwargs):
+    """some(x): the payload of an optional value (meaningful where x is known not to be None)."""
+    (v,) = args
+    if isinstance(v, SV) and isinstance(v.sort, tuple) and v.sort[0] == "opt":
+        yield st, SV(v.sort[1], z3sort(v.sort).val(v.t))
+    else:
+        yield st, v
+
+
 def _sb_py_strip(ex, st, args, kwargs):
     (s,) = args
     for st1, w in ex.narrow(st, s):
@@ -400,7 +412,7 @@ def _sb_py_strip(ex, st, args, kwargs):
             yield st1, bm.model_strip(ex, st1, w)
 
 
-SPEC_BUILTINS = {"index_at": _sb_index_at, "strip_blank": _sb_strip_blank, "pos_of": _sb_pos_of, "call_arg": _sb_call_arg, "unmodified": _sb_unmodified, "uf": _sb_uf, "called": _sb_called, "py_isalpha": _sb_py_isalpha, "py_isdigit": _sb_py_isdigit, "int_of_signed": _sb_int_of_signed, "strip_padded": _sb_strip_padded, "strip_unique": _sb_strip_unique, "py_strip": _sb_py_strip, "pad": _sb_pad, "matches": _sb_matches, "nat": _sb_nat, "key_at": _sb_key_at, "val_at": _sb_val_at,
+SPEC_BUILTINS = {"some": _sb_some, "index_at": _sb_index_at, "strip_blank": _sb_strip_blank, "pos_of": _sb_pos_of, "call_arg": _sb_call_arg, "unmodified": _sb_unmodified, "uf": _sb_uf, "called": _sb_called, "py_isalpha": _sb_py_isalpha, "py_isdigit": _sb_py_isdigit, "int_of_signed": _sb_int_of_signed, "strip_padded": _sb_strip_padded, "strip_unique": _sb_strip_unique, "py_strip": _sb_py_strip, "pad": _sb_pad, "matches": _sb_matches, "nat": _sb_nat, "key_at": _sb_key_at, "val_at": _sb_val_at,
                  "same_dict": _sb_same_dict}
 
 
@@ -437,7 +449,16 @@ def assume_method(db, kind, meth, returns=None, raises=(), mutates=False, pure=F
             yield st, None
             return
         if pure:
-            yield st, pure_result(ex, st, f"{kind}.{meth}", returns, [recv] + list(args))
+            kw = dict(kwargs)
+            if "**" in kw:
+                inner = kw.pop("**")
+                if inner.open:
+                    raise Unsupported(f"pure collaborator call {kind}.{meth} with open **kwargs")
+                kw = {**inner.known, **kw}
+            extra = []
+            for k in sorted(kw):
+                extra += [k, kw[k]]
+            yield st, pure_result(ex, st, f"{kind}.{meth}", returns, [recv] + list(args) + extra)
         else:
             yield st, db.make_value(ex, st, returns, f"{kind}_{meth}")
 
@@ -450,14 +471,20 @@ def pure_result(ex, st, name, returns, args):
     zargs = []
     for a in args:
         a = st.deref(a)
-        if isinstance(a, (SV, Opaque)):
+        if isinstance(a, SV) and a.sort in ("int", "str", "bool"):
+            # scalars are passed in their optional sort, so a narrowed and an un-narrowed view of the
+            # same value reach the same uninterpreted function
+            zargs.append(lift(a, ("opt", a.sort)))
+        elif isinstance(a, (SV, Opaque)):
             zargs.append(a.t)
         elif isinstance(a, bm.SSeq):
             zargs += [a.n, a.arr]
         elif isinstance(a, (bool, int, str)):
-            zargs.append(lift(a))
+            zargs.append(lift(a, ("opt", natural_sort(a))))
         elif a is None:
-            continue
+            zargs.append(z3.IntVal(-1))  # marker for an explicit None argument
+        elif isinstance(a, SDict):
+            zargs += [a.n, a.key_at, a.has, a.val]
         else:
             raise Unsupported(f"pure collaborator call {name} with argument {a!r}")
     returns = returns.strip()
@@ -483,6 +510,7 @@ class Maker:
     def obj(self, cls, fields=None, open_fields=None, **flags):
         o = Obj(cls, {k: (self.value(v, k) if isinstance(v, str) or callable(v) else v) for k, v in (fields or {}).items()})
         o.open_fields = open_fields
+        o.closed = open_fields is None  # reading an undeclared field => undecided, never silently a value
         for k, v in flags.items():
             setattr(o, k, v)
         return self.st.alloc(o)
@@ -986,6 +1014,7 @@ def apply_contract(ex: Exec, st: State, f: FuncRef, node, c: Contract, args, kwa
         yield ex.raise_(st, "TypeError")
         return
     caller = ex.cur_name
+    st.trace.append(("call", c.qualname, None, tuple(env.get(a.arg) for a in node.args.posonlyargs + node.args.args), ()))
     # pre-conditions are obligations of the caller
     for i, r in enumerate(c.requires):
         t = eval_spec(ex, st, r, env, what=f"{c.key}.requires[{i}]")
@@ -1007,6 +1036,8 @@ def apply_contract(ex: Exec, st: State, f: FuncRef, node, c: Contract, args, kwa
     # normal exit
     if c.returns == "noreturn":
         return
+    if not c.returns and any("result" in (e if isinstance(e, str) else "") for _, e in c.ensures + [("", x) for x in (c.call_ensures or [])]):
+        raise Unsupported(f"contract {c.key} is used at a call site, mentions 'result', but declares no 'returns' sort")
     result = ex.db.make_value(ex, st, c.returns, "ret_" + c.qualname.split(".")[-1]) if c.returns else None
     env2 = dict(env)
     env2["result"] = result
